@@ -216,7 +216,7 @@ def generate(ctx):
             for inp in CONST_INPUTS:
                 arr = ", ".join(f"{x}i64" for x in inp)
                 body_k = f"const A: &[i64] = &konst::iter::collect_const!(i64 => &[{arr}] as &[i64], copied(){ktext}); let _ = s; items(A)"
-                body_s = f"let v: Vec<i64> = [{arr}].iter().copied(){stext}.collect(); let _ = s; items(&v)" if std_ok else 'let _ = s; "?".to_string()'
+                body_s = f"let a: &[i64] = &[{arr}]; let v: Vec<i64> = a.iter().copied(){stext}.collect(); let _ = s; items(&v)" if std_ok else 'let _ = s; "?".to_string()'
                 inp_s = "[" + ";".join(map(str, inp)) + "]"
                 funcs.append((f"chain {desc} collect", body_k, body_s, (scope_of(toks, "collect", False) if std_ok else "m"), "CONST:" + inp_s))
 
